@@ -96,6 +96,14 @@ class Lowering:
         self.by_parent = inliner.by_parent
         self.lowered = []
         self.closure_uses = {}
+        # "{closure@file:l:c: l:c}" -> path of that closure
+        self.closure_by_ty = {}
+        for p_, it_ in self.items.items():
+            if it_.get("kind") == "closure" and "mir" in it_ and it_["mir"]["arg_count"] >= 1:
+                ty_ = str(it_["mir"]["locals"][1]["ty"])
+                k_ = ty_.find("{closure@")
+                if k_ >= 0 and not it_.get("inlined_from"):
+                    self.closure_by_ty.setdefault(ty_[k_:], p_)
 
     # ------------------------------------------------------------------ small builders
     @staticmethod
@@ -175,8 +183,50 @@ class Lowering:
                 # `&closure` handed to Fn::call
                 l = rv["place"]["l"]
                 continue
+            if rv["k"] == "ref" and rv["place"]["p"] == ["*"]:
+                # a re-borrow `&*r`
+                l = rv["place"]["l"]
+                continue
+            src = rv["place"] if rv["k"] == "ref" else (rv["ops"][0].get("place") if rv["k"] == "use" and rv["ops"] else None)
+            if src and src["l"] == 1 and host.get("kind") == "closure":
+                return self._captured_closure(host, src)
             return None
         return None
+
+    def _captured_closure(self, host, src):
+        """the operand is (a reference to) a closure value that the host closure captured: identify that closure by its
+        type and express its captures as places of the host (`(*(*_1).^f).^x`)"""
+        proj = src["p"]
+        k0 = next((k for k, e in enumerate(proj) if isinstance(e, dict) and str(e.get("f", "")).startswith("^")), None)
+        if k0 is None or k0 > 1 or any(e != "*" for e in proj[k0 + 1:]):
+            return None
+        fty = str(proj[k0].get("ty", ""))
+        k_ = fty.find("{closure@")
+        if k_ < 0:
+            return None
+        cty = fty[k_:]
+        cpath = self.closure_by_ty.get(cty)
+        if not cpath or cpath == host["path"] or "mir" not in self.items.get(cpath, {}):
+            return None
+        # the place of the closure VALUE: the captured field, dereferenced as often as it is a reference
+        nref = 0
+        t_ = fty
+        while t_.startswith("&"):
+            t_ = t_[1:].lstrip()
+            if t_.startswith("mut "):
+                t_ = t_[4:]
+            nref += 1
+        env = {"l": 1, "p": copy.deepcopy(proj[: k0 + 1]) + ["*"] * nref, "ty": cty}
+        caps = self.items[cpath].get("captures") or []
+        up = {}
+        for k, c in enumerate(caps):
+            cap_ty = c.get("ty")
+            kind = str(c.get("kind", ""))
+            if kind.startswith("ByRef"):
+                cap_ty = ("&mut " if "Mut" in kind and "Immutable" not in kind else "&") + str(cap_ty)
+            pl = {"l": 1, "p": copy.deepcopy(env["p"]) + [{"f": "^" + str(c.get("name")), "i": k, "ty": cap_ty, "of": cty}], "ty": cap_ty}
+            up[k] = ("val", pl)
+        return ("closure", cpath, None, up)
 
     def upvar_map(self, host, clos_path, stmt):
         """capture index -> ('val', place) | ('ref', place, temp place)"""
@@ -207,10 +257,10 @@ class Lowering:
         hm = host["mir"]
         if callee[0] == "fn":
             return self.new_block(hm, [], {"k": "call", "func": copy.deepcopy(callee[1]), "args": [copy.deepcopy(a) for a in args], "dest": copy.deepcopy(dest), "target": target, "unwind": None, "span": span, "inlined_at": at})
-        _, cpath, stmt = callee
+        cpath, stmt = callee[1], callee[2]
         g = self.items[cpath]
         gm = g["mir"]
-        up = self.upvar_map(host, cpath, stmt)
+        up = callee[3] if len(callee) > 3 else self.upvar_map(host, cpath, stmt)
         # environment argument
         env_ty = gm["locals"][1]["ty"] if gm["arg_count"] >= 1 else None
         env_op = None
@@ -511,6 +561,10 @@ class Lowering:
             for b in hm["blocks"]:
                 for s in b["stmts"]:
                     if s["k"] == "assign" and not s["lhs"]["p"] and s["rv"]["k"] == "use" and s["rv"]["ops"] and s["rv"]["ops"][0].get("place") and not s["rv"]["ops"][0]["place"]["p"] and s["rv"]["ops"][0]["place"]["l"] in out and s["lhs"]["l"] not in out and not s.get("lowered"):
+                        out.add(s["lhs"]["l"])
+                        changed = True
+                    elif s["k"] == "assign" and not s["lhs"]["p"] and s["rv"]["k"] == "ref" and s["rv"].get("place") and not s["rv"]["place"]["p"] and s["rv"]["place"]["l"] in out and s["lhs"]["l"] not in out and not s.get("lowered"):
+                        # `&closure` (handed to an adaptor as `.map(&f)`) is a use of the closure value as well
                         out.add(s["lhs"]["l"])
                         changed = True
         return out
